@@ -192,12 +192,12 @@ Definition step (s : st) (l : label) : option (st * list ev) :=
       end end
   end.
 
-(* how the transport's owner uses it (the watermark pool waits for Open() before lending the sink, and does not
-   re-open a sink that carries a request) *)
+(* how the transport's owner uses it: the watermark pool waits for Open() before lending the sink; a sink is opened
+   once (pools and the resurrector replace a closed sink by a new one) *)
 Definition usage_ok (s : st) (l : label) : bool :=
   match l with
   | LReq _ => match opn s with None => true | _ => false end
-  | LOpen => match proc s with None => true | _ => false end
+  | LOpen => match proc s, cst s with None, Idle => true | _, _ => false end
   | _ => true
   end.
 
@@ -287,7 +287,9 @@ Inductive frame := FReply (c : Z) | FPing | FOther.           (* a frame read of
                                                                  by call c, an Rping on tag 1, anything else *)
 Inductive sstage := SIdle | SSending (i : item) | SDead.      (* _SendLoop: in queue.get() | in socket.write | gone *)
 Inductive rstage := RHdr | RBody | RDead.                     (* _RecvLoop: in readAll(4) | in readAll(sz) | gone *)
-Inductive ostage := OSpawned | OConn | OPingWait.             (* _OpenImpl: spawned | in connect | in ar.get() *)
+(* _OpenImpl: spawned | in connect | blocked in ar.get() on the first ping | made runnable, the ping result being
+   successful / failed at the moment (it reads the result when it actually runs) *)
+Inductive ostage := OSpawned | OConn | OPingWait | OWoken (ok : bool).
 Inductive ploop := PNone | PSpawned | PSleep (p : Z).         (* _PingLoop: none | spawned | sleeping until p *)
 Inductive kind := KReply | KClientErr | KNotOpen.
 Inductive ev :=
@@ -314,7 +316,8 @@ Record st := {
   sndl : sstage;
   rcv : rstage;
   pending : list frame;        (* spawned _ProcessReply greenlets, oldest first *)
-  ping_dl : option Z;          (* an unanswered ping's _PingTimeoutHelper wakes up at this time *)
+  par : bool;                  (* _ping_ar is not None *)
+  ping_dl : option Z;          (* a _PingTimeoutHelper is blocked in ar.wait(5) until this time *)
   pl : ploop;
   lastw : Z;                   (* ghost: when the ping loop started / last woke *)
   lastping : Z;                (* ghost: when the last ping was queued *)
@@ -322,7 +325,38 @@ Record st := {
 
 Definition init (t0 : Z) : st :=
   {| now := t0; cst := Idle; opn := None; tagmap := []; seen := []; expired := []; queue := []; sndl := SDead;
-     rcv := RDead; pending := []; ping_dl := None; pl := PNone; lastw := t0; lastping := t0 |}.
+     rcv := RDead; pending := []; par := false; ping_dl := None; pl := PNone; lastw := t0; lastping := t0 |}.
+
+Definition set_now (s : st) x : st :=
+  {| now := x; cst := cst s; opn := opn s; tagmap := tagmap s; seen := seen s; expired := expired s; queue := queue s; sndl := sndl s; rcv := rcv s; pending := pending s; par := par s; ping_dl := ping_dl s; pl := pl s; lastw := lastw s; lastping := lastping s |}.
+Definition set_cst (s : st) x : st :=
+  {| now := now s; cst := x; opn := opn s; tagmap := tagmap s; seen := seen s; expired := expired s; queue := queue s; sndl := sndl s; rcv := rcv s; pending := pending s; par := par s; ping_dl := ping_dl s; pl := pl s; lastw := lastw s; lastping := lastping s |}.
+Definition set_opn (s : st) x : st :=
+  {| now := now s; cst := cst s; opn := x; tagmap := tagmap s; seen := seen s; expired := expired s; queue := queue s; sndl := sndl s; rcv := rcv s; pending := pending s; par := par s; ping_dl := ping_dl s; pl := pl s; lastw := lastw s; lastping := lastping s |}.
+Definition set_tagmap (s : st) x : st :=
+  {| now := now s; cst := cst s; opn := opn s; tagmap := x; seen := seen s; expired := expired s; queue := queue s; sndl := sndl s; rcv := rcv s; pending := pending s; par := par s; ping_dl := ping_dl s; pl := pl s; lastw := lastw s; lastping := lastping s |}.
+Definition set_seen (s : st) x : st :=
+  {| now := now s; cst := cst s; opn := opn s; tagmap := tagmap s; seen := x; expired := expired s; queue := queue s; sndl := sndl s; rcv := rcv s; pending := pending s; par := par s; ping_dl := ping_dl s; pl := pl s; lastw := lastw s; lastping := lastping s |}.
+Definition set_expired (s : st) x : st :=
+  {| now := now s; cst := cst s; opn := opn s; tagmap := tagmap s; seen := seen s; expired := x; queue := queue s; sndl := sndl s; rcv := rcv s; pending := pending s; par := par s; ping_dl := ping_dl s; pl := pl s; lastw := lastw s; lastping := lastping s |}.
+Definition set_queue (s : st) x : st :=
+  {| now := now s; cst := cst s; opn := opn s; tagmap := tagmap s; seen := seen s; expired := expired s; queue := x; sndl := sndl s; rcv := rcv s; pending := pending s; par := par s; ping_dl := ping_dl s; pl := pl s; lastw := lastw s; lastping := lastping s |}.
+Definition set_sndl (s : st) x : st :=
+  {| now := now s; cst := cst s; opn := opn s; tagmap := tagmap s; seen := seen s; expired := expired s; queue := queue s; sndl := x; rcv := rcv s; pending := pending s; par := par s; ping_dl := ping_dl s; pl := pl s; lastw := lastw s; lastping := lastping s |}.
+Definition set_rcv (s : st) x : st :=
+  {| now := now s; cst := cst s; opn := opn s; tagmap := tagmap s; seen := seen s; expired := expired s; queue := queue s; sndl := sndl s; rcv := x; pending := pending s; par := par s; ping_dl := ping_dl s; pl := pl s; lastw := lastw s; lastping := lastping s |}.
+Definition set_pending (s : st) x : st :=
+  {| now := now s; cst := cst s; opn := opn s; tagmap := tagmap s; seen := seen s; expired := expired s; queue := queue s; sndl := sndl s; rcv := rcv s; pending := x; par := par s; ping_dl := ping_dl s; pl := pl s; lastw := lastw s; lastping := lastping s |}.
+Definition set_par (s : st) x : st :=
+  {| now := now s; cst := cst s; opn := opn s; tagmap := tagmap s; seen := seen s; expired := expired s; queue := queue s; sndl := sndl s; rcv := rcv s; pending := pending s; par := x; ping_dl := ping_dl s; pl := pl s; lastw := lastw s; lastping := lastping s |}.
+Definition set_ping_dl (s : st) x : st :=
+  {| now := now s; cst := cst s; opn := opn s; tagmap := tagmap s; seen := seen s; expired := expired s; queue := queue s; sndl := sndl s; rcv := rcv s; pending := pending s; par := par s; ping_dl := x; pl := pl s; lastw := lastw s; lastping := lastping s |}.
+Definition set_pl (s : st) x : st :=
+  {| now := now s; cst := cst s; opn := opn s; tagmap := tagmap s; seen := seen s; expired := expired s; queue := queue s; sndl := sndl s; rcv := rcv s; pending := pending s; par := par s; ping_dl := ping_dl s; pl := x; lastw := lastw s; lastping := lastping s |}.
+Definition set_lastw (s : st) x : st :=
+  {| now := now s; cst := cst s; opn := opn s; tagmap := tagmap s; seen := seen s; expired := expired s; queue := queue s; sndl := sndl s; rcv := rcv s; pending := pending s; par := par s; ping_dl := ping_dl s; pl := pl s; lastw := x; lastping := lastping s |}.
+Definition set_lastping (s : st) x : st :=
+  {| now := now s; cst := cst s; opn := opn s; tagmap := tagmap s; seen := seen s; expired := expired s; queue := queue s; sndl := sndl s; rcv := rcv s; pending := pending s; par := par s; ping_dl := ping_dl s; pl := pl s; lastw := lastw s; lastping := x |}.
 
 Definition item_eqb (a b : item) : bool :=
   match a, b with
@@ -331,16 +365,19 @@ Definition item_eqb (a b : item) : bool :=
   | _, _ => false
   end.
 
-(* _Shutdown(reason, fault) followed by the ThriftMux override (the outstanding ping's result gets the exception, which
-   wakes the time-out helper and an _OpenImpl waiting for the first Rping; both then find the sink inactive) *)
+(* the ping result gets an exception: the time-out helper wakes up (and finds the result unsuccessful and, after
+   _Shutdown, the sink inactive), an _OpenImpl blocked on it becomes runnable *)
+Definition ar_fail (s : st) : st :=
+  if par s then
+    set_opn (set_ping_dl s None) (match opn s with Some OPingWait => Some (OWoken false) | o => o end)
+  else s.
+
+(* MuxSocketTransportSink._Shutdown(reason, fault), then the ThriftMux override: if self._ping_ar: set_exception *)
 Definition shutdown (fault : bool) (s : st) : st * list ev :=
   match cst s with
-  | Closed => (s, [])
+  | Closed => (ar_fail s, [])
   | _ =>
-      ({| now := now s; cst := Closed;
-          opn := match opn s with Some OPingWait => None | o => o end;
-          tagmap := []; seen := seen s; expired := expired s; queue := []; sndl := SDead; rcv := RDead;
-          pending := pending s; ping_dl := None; pl := PNone; lastw := lastw s; lastping := lastping s |},
+      (ar_fail (set_pl (set_rcv (set_sndl (set_queue (set_tagmap (set_cst s Closed) []) []) SDead) RDead) PNone),
        (if fault then [Faulted] else []) ++ map (fun c => Post c KClientErr) (tagmap s) ++ [ShutdownAt (now s)])
   end.
 
@@ -349,6 +386,7 @@ Inductive label :=
 | MOpen                      (* Open() *)
 | MOStart                    (* _OpenImpl starts: connect begins *)
 | MOConn (ok : bool)         (* connect returns / raises *)
+| MOResume                   (* _OpenImpl, made runnable by the first ping's result, runs *)
 | MReq (c : Z)               (* AsyncProcessRequest for a two-way call c *)
 | MExpire (c : Z)            (* c's deadline event is set (ClientTimeoutSink) and its subscribers are notified *)
 | MTake                      (* _SendLoop: queue.get() returned, _HandleTimeout ran *)
@@ -360,18 +398,6 @@ Inductive label :=
 | MPingTimeout               (* _PingTimeoutHelper: ar.wait(5) ran out *)
 | MClose.                    (* Close() *)
 
-Definition upd_q (s : st) (q : list item) (sd : sstage) : st :=
-  {| now := now s; cst := cst s; opn := opn s; tagmap := tagmap s; seen := seen s; expired := expired s; queue := q;
-     sndl := sd; rcv := rcv s; pending := pending s; ping_dl := ping_dl s; pl := pl s; lastw := lastw s;
-     lastping := lastping s |}.
-Definition upd_map (s : st) (m : list Z) : st :=
-  {| now := now s; cst := cst s; opn := opn s; tagmap := m; seen := seen s; expired := expired s; queue := queue s;
-     sndl := sndl s; rcv := rcv s; pending := pending s; ping_dl := ping_dl s; pl := pl s; lastw := lastw s;
-     lastping := lastping s |}.
-Definition upd_rcv (s : st) (r : rstage) (p : list frame) : st :=
-  {| now := now s; cst := cst s; opn := opn s; tagmap := tagmap s; seen := seen s; expired := expired s; queue := queue s;
-     sndl := sndl s; rcv := r; pending := p; ping_dl := ping_dl s; pl := pl s; lastw := lastw s; lastping := lastping s |}.
-
 Definition in_queue (c : Z) (q : list item) : bool := existsb (item_eqb (IFrame c)) q.
 
 Definition tick_ok (s : st) (t : Z) : bool :=
@@ -379,71 +405,52 @@ Definition tick_ok (s : st) (t : Z) : bool :=
   match ping_dl s with Some d => t <=? d | None => true end &&
   match pl s with PSleep p => t <=? p | _ => true end.
 
+(* _SendPingMessage: new result object, ping queued, helper spawned (it blocks in ar.wait(5) at once) *)
+Definition send_ping (s : st) : st * list ev :=
+  (set_lastping (set_ping_dl (set_par (set_queue s (queue s ++ [IPing])) true) (Some (now s + ping_timeout))) (now s),
+   [PingSent (now s)]).
+
 Definition step (s : st) (l : label) : option (st * list ev) :=
   match l with
-  | MTick t =>
-      if tick_ok s t then
-        Some ({| now := t; cst := cst s; opn := opn s; tagmap := tagmap s; seen := seen s; expired := expired s;
-                 queue := queue s; sndl := sndl s; rcv := rcv s; pending := pending s; ping_dl := ping_dl s; pl := pl s;
-                 lastw := lastw s; lastping := lastping s |}, [])
-      else None
+  | MTick t => if tick_ok s t then Some (set_now s t, []) else None
   | MOpen =>
       match cst s, opn s with
-      | Idle, None =>
-          Some ({| now := now s; cst := Idle; opn := Some OSpawned; tagmap := []; seen := seen s; expired := expired s;
-                   queue := []; sndl := sndl s; rcv := rcv s; pending := pending s; ping_dl := ping_dl s; pl := pl s;
-                   lastw := lastw s; lastping := lastping s |}, [])
+      | Idle, None => Some (set_opn (set_queue (set_tagmap s []) []) (Some OSpawned), [])     (* _Init, spawn _OpenImpl *)
       | Open, _ => Some (s, [])
-      | _, _ => None
+      | _, _ => None                 (* a closed MuxSocketTransportSink cannot be opened again; not modelled *)
       end
-  | MOStart =>
-      match opn s with
-      | Some OSpawned =>
-          Some ({| now := now s; cst := cst s; opn := Some OConn; tagmap := tagmap s; seen := seen s; expired := expired s;
-                   queue := queue s; sndl := sndl s; rcv := rcv s; pending := pending s; ping_dl := ping_dl s; pl := pl s;
-                   lastw := lastw s; lastping := lastping s |}, [])
-      | _ => None
-      end
+  | MOStart => match opn s with Some OSpawned => Some (set_opn s (Some OConn), []) | _ => None end
   | MOConn ok =>
       match opn s with
       | Some OConn =>
-          match cst s with
-          | Closed =>
-              Some ({| now := now s; cst := Closed; opn := None; tagmap := tagmap s; seen := seen s; expired := expired s;
-                       queue := queue s; sndl := sndl s; rcv := rcv s; pending := pending s; ping_dl := ping_dl s;
-                       pl := pl s; lastw := lastw s; lastping := lastping s |}, [])
-          | _ =>
-              if ok then
-                (* loops spawned, _SendPingMessage: ping queued, helper armed, _OpenImpl waits for the Rping *)
-                Some ({| now := now s; cst := cst s; opn := Some OPingWait; tagmap := tagmap s; seen := seen s;
-                         expired := expired s; queue := queue s ++ [IPing]; sndl := SIdle; rcv := RHdr;
-                         pending := pending s; ping_dl := Some (now s + ping_timeout); pl := pl s; lastw := lastw s;
-                         lastping := now s |}, [PingSent (now s)])
-              else
-                let (s1, e) := shutdown true s in
-                Some ({| now := now s1; cst := cst s1; opn := None; tagmap := tagmap s1; seen := seen s1;
-                         expired := expired s1; queue := queue s1; sndl := sndl s1; rcv := rcv s1; pending := pending s1;
-                         ping_dl := ping_dl s1; pl := pl s1; lastw := lastw s1; lastping := lastping s1 |}, e)
-          end
+          if ok then
+            (* loops spawned (they exit at once when the sink was closed meanwhile), _CheckInitialConnection:
+               _SendPingMessage, then ar.get() *)
+            let s1 := match cst s with Closed => s | _ => set_rcv (set_sndl s SIdle) RHdr end in
+            let (s2, e) := send_ping s1 in Some (set_opn s2 (Some OPingWait), e)
+          else
+            let (s1, e) := shutdown true s in Some (set_opn s1 None, e)
+      | _ => None
+      end
+  | MOResume =>
+      match opn s with
+      | Some (OWoken true) => Some (set_opn (set_cst (set_pl s PSpawned) Open) None, [])   (* ping loop spawned; _state = Open *)
+      | Some (OWoken false) => Some (set_opn s None, [])
       | _ => None
       end
   | MReq c =>
       if mem_z c (seen s) then None else
-      let s0 := {| now := now s; cst := cst s; opn := opn s; tagmap := tagmap s; seen := c :: seen s; expired := expired s;
-                   queue := queue s; sndl := sndl s; rcv := rcv s; pending := pending s; ping_dl := ping_dl s; pl := pl s;
-                   lastw := lastw s; lastping := lastping s |} in
+      let s0 := set_seen s (c :: seen s) in
       match cst s, opn s with
       | Idle, Some _ => None                      (* the caller would block in _open_result.wait() *)
       | Idle, None | Closed, _ => Some (s0, [Post c KNotOpen])
-      | Open, _ => Some (upd_q (upd_map s0 (tagmap s ++ [c])) (queue s ++ [IFrame c]) (sndl s), [Accepted c])
+      | Open, _ => Some (set_queue (set_tagmap s0 (tagmap s ++ [c])) (queue s ++ [IFrame c]), [Accepted c])
       end
   | MExpire c =>
       if mem_z c (seen s) && negb (mem_z c (expired s)) then
-        let s0 := {| now := now s; cst := cst s; opn := opn s; tagmap := tagmap s; seen := seen s; expired := c :: expired s;
-                     queue := queue s; sndl := sndl s; rcv := rcv s; pending := pending s; ping_dl := ping_dl s; pl := pl s;
-                     lastw := lastw s; lastping := lastping s |} in
+        let s0 := set_expired s (c :: expired s) in
         (* timeout_proc was subscribed when c's frame left the queue; it queues a Tdiscarded while c holds its tag *)
-        if mem_z c (tagmap s) && negb (in_queue c (queue s)) then Some (upd_q s0 (queue s ++ [IDiscard]) (sndl s), [])
+        if mem_z c (tagmap s) && negb (in_queue c (queue s)) then Some (set_queue s0 (queue s ++ [IDiscard]), [])
         else Some (s0, [])
       else None
   | MTake =>
@@ -452,50 +459,40 @@ Definition step (s : st) (l : label) : option (st * list ev) :=
           match i with
           | IFrame c =>
               if mem_z c (expired s) then
-                if mem_z c (tagmap s) then Some (upd_q (upd_map s (remove_z c (tagmap s))) q SIdle, [Released c])
-                else Some (upd_q s q SIdle, [])
-              else Some (upd_q s q (SSending i), [])
-          | _ => Some (upd_q s q (SSending i), [])
+                if mem_z c (tagmap s) then Some (set_queue (set_tagmap s (remove_z c (tagmap s))) q, [Released c])
+                else Some (set_queue s q, [])
+              else Some (set_sndl (set_queue s q) (SSending i), [])
+          | _ => Some (set_sndl (set_queue s q) (SSending i), [])
           end
       | _, _ => None
       end
   | MWrote r =>
       match sndl s with
-      | SSending i =>
-          if io_ok r then Some (upd_q s (queue s) SIdle, [Wire i]) else Some (shutdown true s)
+      | SSending i => if io_ok r then Some (set_sndl s SIdle, [Wire i]) else Some (shutdown true s)
       | SDead => if io_ok r then None else Some (s, [])    (* a write that was blocked when the socket was closed *)
       | SIdle => None
       end
   | MRead r f =>
       match rcv s with
       | RDead => if io_ok r then None else Some (s, [])     (* the killed loop's last call: _Shutdown finds it inactive *)
-      | RHdr => if io_ok r then Some (upd_rcv s RBody (pending s), []) else Some (shutdown true s)
-      | RBody => if io_ok r then Some (upd_rcv s RHdr (pending s ++ [f]), []) else Some (shutdown true s)
+      | RHdr => if io_ok r then Some (set_rcv s RBody, []) else Some (shutdown true s)
+      | RBody => if io_ok r then Some (set_pending (set_rcv s RHdr) (pending s ++ [f]), []) else Some (shutdown true s)
       end
   | MProcess =>
       match pending s with
       | [] => None
       | f :: p =>
-          let s0 := upd_rcv s (rcv s) p in
+          let s0 := set_pending s p in
           match f with
           | FReply c =>
-              if mem_z c (tagmap s) then Some (upd_map s0 (remove_z c (tagmap s)), [Post c KReply]) else Some (s0, [])
+              if mem_z c (tagmap s) then Some (set_tagmap s0 (remove_z c (tagmap s)), [Post c KReply]) else Some (s0, [])
           | FPing =>
-              match ping_dl s with
-              | Some _ =>
-                  match opn s with
-                  | Some OPingWait =>
-                      (* the first Rping: _OpenImpl resumes, spawns the ping loop, _state = Open *)
-                      Some ({| now := now s; cst := Open; opn := None; tagmap := tagmap s; seen := seen s;
-                               expired := expired s; queue := queue s; sndl := sndl s; rcv := rcv s; pending := p;
-                               ping_dl := None; pl := PSpawned; lastw := lastw s; lastping := lastping s |}, [Pong])
-                  | _ =>
-                      Some ({| now := now s; cst := cst s; opn := opn s; tagmap := tagmap s; seen := seen s;
-                               expired := expired s; queue := queue s; sndl := sndl s; rcv := rcv s; pending := p;
-                               ping_dl := None; pl := pl s; lastw := lastw s; lastping := lastping s |}, [Pong])
-                  end
-              | None => Some (s0, [])
-              end
+              (* _OnPingResponse: ar, self._ping_ar = self._ping_ar, None; ar.set() - also on a result that already
+                 carries _Shutdown's exception *)
+              if par s then
+                Some (set_opn (set_ping_dl (set_par s0 false) None)
+                              (match opn s with Some OPingWait | Some (OWoken _) => Some (OWoken true) | o => o end), [Pong])
+              else Some (s0, [])
           | FOther => Some (s0, [])
           end
       end
@@ -503,9 +500,10 @@ Definition step (s : st) (l : label) : option (st * list ev) :=
       match pl s with
       | PSpawned =>
           if (30 <=? d) && (d <=? 40) then
-            Some ({| now := now s; cst := cst s; opn := opn s; tagmap := tagmap s; seen := seen s; expired := expired s;
-                     queue := queue s; sndl := sndl s; rcv := rcv s; pending := pending s; ping_dl := ping_dl s;
-                     pl := PSleep (now s + tps * d); lastw := now s; lastping := lastping s |}, [])
+            match cst s with
+            | Closed => Some (set_pl s PNone, [])
+            | _ => Some (set_lastw (set_pl s (PSleep (now s + tps * d))) (now s), [])
+            end
           else None
       | _ => None
       end
@@ -513,16 +511,13 @@ Definition step (s : st) (l : label) : option (st * list ev) :=
       match pl s, ping_dl s with
       | PSleep p, None =>
           if (p =? now s) && (30 <=? d) && (d <=? 40) then
-            Some ({| now := now s; cst := cst s; opn := opn s; tagmap := tagmap s; seen := seen s; expired := expired s;
-                     queue := queue s ++ [IPing]; sndl := sndl s; rcv := rcv s; pending := pending s;
-                     ping_dl := Some (now s + ping_timeout); pl := PSleep (now s + tps * d); lastw := now s;
-                     lastping := now s |}, [PingSent (now s)])
+            let (s1, e) := send_ping s in Some (set_lastw (set_pl s1 (PSleep (now s + tps * d))) (now s), e)
           else None
       | _, _ => None
       end
   | MPingTimeout =>
       match ping_dl s with
-      | Some d => if d =? now s then Some (shutdown true s) else None
+      | Some d => if d =? now s then Some (shutdown true (ar_fail s)) else None
       | None => match cst s with Closed => Some (s, []) | _ => None end   (* woken by _Shutdown: finds the sink inactive *)
       end
   | MClose => Some (shutdown false s)
